@@ -102,6 +102,18 @@ package memmetrics
 //@   ensures buckets_are_window: cleanAt(c, lastclock)
 //@   ensures keeps_invariant: RC(c) && cfgOK(c)
 
+// Clone hands out an independent snapshot: its buckets are a new array (an exported copy must not share them with the
+// live counter, which keeps cleaning and counting into its own).
+//@ func (*RollingCounter).Clone
+//@   props C17 C18
+//@   assume clock_stable
+//@   onlyaxioms slot_monotone
+//@   requires cfgOK(c) && RC(c) && lastclock >= (len(c.values) + 1) * c.resolution
+//@   modifies elems(c.values), c.tclean
+//@   ensures independent_snapshot: result != nil && fresh(result) && result != c && fresh(backing(result.values)) && backing(result.values) != backing(c.values)
+//@   ensures same_contents: len(result.values) == len(c.values) && (forall i int :: 0 <= i && i < len(c.values) ==> result.values[i] == c.values[i]) && result.resolution == c.resolution && result.lastUpdated == c.lastUpdated && result.lastBucket == c.lastBucket
+//@   ensures original_keeps_its_window: cleanAt(c, lastclock) && RC(c) && cfgOK(c)
+
 //@ type RatioCounter
 //@   extsync
 //@   mutators Ratio IncA IncB Reset CountA CountB ProcessedCount
